@@ -19,11 +19,13 @@ from vlib import Ctx, Inconclusive, finish
 import props_lex
 import props_prog
 import props_expr
+import props_plan
 
 REGISTRY = {}
 REGISTRY.update(props_lex.CHECKS)
 REGISTRY.update(props_prog.CHECKS)
 REGISTRY.update(props_expr.CHECKS)
+REGISTRY.update(props_plan.CHECKS)
 
 
 def replay_fn(ctx, path):
